@@ -11,6 +11,7 @@ Lemma fact_reload_if_date : field_reloads_if_date C15_facts = true.   Proof. ref
 Lemma fact_no_zero_branch : method_zero_branch C15_facts = false.     Proof. reflexivity. Qed.
 Lemma fact_ctor_resets : ctor_resets_first C15_facts = true.          Proof. reflexivity. Qed.
 Lemma fact_ctor_generic : ctor_guard_xx C15_facts = true.             Proof. reflexivity. Qed.
+Lemma fact_no_hidden_state : no_hidden_state C15_facts = true.          Proof. reflexivity. Qed.
 Lemma fact_ctor_date : ctor_date C15_facts = PassGiven \/ ctor_date C15_facts = PassCalendar \/ ctor_date C15_facts = PassDecimal.
 Proof. first [left; reflexivity | right; left; reflexivity | right; right; reflexivity]. Qed.
 
@@ -33,9 +34,9 @@ Proof. intros H. apply history_independent; [exact fact_reset_reloads|exact fact
 (* reused object after any history = pure function: the answer to (p, d) does not depend on the object or on what it was
    asked before *)
 Lemma fresh_eq_reused_explicit w pre1 pre2 st1 st2 p d dflt : explicit_dates w pre1 -> explicit_dates w pre2 ->
-  sframe w st1 = sframe w st2 ->
+  frame_after w (sframe w st1) pre1 = frame_after w (sframe w st2) pre2 ->
   last (run w C15_facts st1 (pre1 ++ [Field w p (Some d)])) dflt = last (run w C15_facts st2 (pre2 ++ [Field w p (Some d)])) dflt
-  /\ last (run w C15_facts st1 (pre1 ++ [Field w p (Some d)])) dflt = pure w d p (sframe w st1).
+  /\ last (run w C15_facts st1 (pre1 ++ [Field w p (Some d)])) dflt = pure w d p (frame_after w (sframe w st1) pre1).
 Proof.
   intros H1 H2 Hf.
   rewrite (last_answer_independent w C15_facts fact_reset_reloads fact_no_zero_branch pre1 st1 p (Some d) dflt
@@ -48,11 +49,23 @@ Qed.
 Lemma fresh_eq_reused_conditional w : field_reloads_if_none C15_facts = true ->
   forall pre st p od dflt,
   last (run w C15_facts st (pre ++ [Field w p od])) dflt =
-  pure w (match od with Some x => x | None => date_after w (sdate w st) pre end) p (sframe w st).
+  pure w (match od with Some x => x | None => date_after w (sdate w st) pre end) p (frame_after w (sframe w st) pre).
 Proof.
   intros Hn pre st p od dflt. apply last_answer_independent; [exact fact_reset_reloads|exact fact_no_zero_branch| |].
   - intros q oq _. destruct oq; [exact fact_reload_if_date|exact Hn].
   - destruct od; [exact fact_reload_if_date|exact Hn].
+Qed.
+
+(* the readers (attributes, magnetic_elements, geodetic_vector) show exactly the stored answer of the last query; switching
+   only the frame and asking the same question again yields the pure answer of the NEW frame *)
+Lemma dictionary_is_answer w st : observe w C15_facts st = answer w st.
+Proof. apply observe_is_answer. exact fact_no_hidden_state. Qed.
+
+Lemma frame_switch w st p d fr' :
+  observe w C15_facts (fst (field w C15_facts st p (Some d))) = Some (pure w d p (sframe w st)) /\
+  observe w C15_facts (fst (field w C15_facts (set_frame w (fst (field w C15_facts st p (Some d))) fr') p (Some d))) = Some (pure w d p fr').
+Proof.
+  exact (frame_switch_requery w C15_facts st p d fr' fact_reset_reloads fact_no_zero_branch fact_reload_if_date fact_no_hidden_state).
 Qed.
 
 (* the method with an explicit date, on any object, at any place (latitude 0 and longitude 0 included: `p` is arbitrary) *)
@@ -97,9 +110,9 @@ Qed.
 (* non-vacuity: the executable instance run on a three-call history with explicit dates *)
 Example object_sample :
   run xworld C15_facts (new xworld C15_facts (Some 3) (0, false, false) true)
-      [XField (1, false, false) (Some 4); XReset 6; XDenorm; XField (2, true, true) (Some 5)]
-  = [[4; 1; 4; 1; 1; 0]; [5; 1; 5; 2; 1; 0]]
-  /\ explicit_dates xworld [XField (1, false, false) (Some 4); XReset 6; XDenorm; XField (2, true, true) (Some 5)].
+      [XField (1, false, false) (Some 4); XReset 6; XDenorm; XSetFrame false; XField (2, true, true) (Some 5)]
+  = [[4; 1; 4; 1; 1; 0]; [5; 1; 5; 2; 0; 0]]
+  /\ explicit_dates xworld [XField (1, false, false) (Some 4); XReset 6; XDenorm; XSetFrame false; XField (2, true, true) (Some 5)].
 Proof.
-  split; [vm_compute; reflexivity|]. intros p od [E|[E|[E|[E|[]]]]]; try discriminate E; injection E as _ <-; discriminate.
+  split; [vm_compute; reflexivity|]. intros p od [E|[E|[E|[E|[E|[]]]]]]; try discriminate E; injection E as _ <-; discriminate.
 Qed.
